@@ -791,10 +791,31 @@ func equivalentCheckConfigInV2(
 			return !ok
 		},
 	)
-	return bufconfig.NewEnabledCheckConfig(
+	repairedCheckConfig, err := bufconfig.NewEnabledCheckConfig(
 		bufconfig.FileVersionV2,
 		append(simplyTranslatedCheckConfig.UseIDsAndCategories(), missingIDs...),
 		append(simplyTranslatedCheckConfig.ExceptIDsAndCategories(), extraIDs...),
+		simplyTranslatedCheckConfig.IgnorePaths(),
+		simplyTranslatedCheckConfig.IgnoreIDOrCategoryToPaths(),
+		simplyTranslatedCheckConfig.DisableBuiltin(),
+	)
+	if err != nil {
+		return nil, err
+	}
+	repairedRules, err := client.ConfiguredRules(ctx, ruleType, repairedCheckConfig)
+	if err != nil {
+		return nil, err
+	}
+	if slices.Equal(expectedIDs, slicesext.Map(repairedRules, bufcheck.Rule.ID)) {
+		return repairedCheckConfig, nil
+	}
+	// Adding the missing IDs to use was not enough: use was empty, so that they took the
+	// place of the default rules, or a category in except has a rule in v2 that it did not
+	// have before, and except wins over use. Name the expected rules instead.
+	return bufconfig.NewEnabledCheckConfig(
+		bufconfig.FileVersionV2,
+		expectedIDs,
+		nil,
 		simplyTranslatedCheckConfig.IgnorePaths(),
 		simplyTranslatedCheckConfig.IgnoreIDOrCategoryToPaths(),
 		simplyTranslatedCheckConfig.DisableBuiltin(),
